@@ -713,6 +713,22 @@ func GenBlocks(r *rand.Rand, p *Profile, nBlocks, nAcct, nVal int, period uint64
 				tw.NM, tw.SM, tw.MS, tw.ZGP = 0, 0, nil, false
 				bo.Ops = append(bo.Ops, tw)
 			}
+			if op.K == "redeem" && len(op.X) > 4 && op.X[0] < 0 && r.Intn(3) == 0 {
+				// a fresh check that expires with this very block, presented a second time in the block
+				// (by another account with its own proof, or by the same one with the next nonce)
+				bo.Ops[len(bo.Ops)-1].X[4] = 0
+				tw := GenOp(r, p, nAcct)
+				tw.K, tw.Raw, tw.Ref = "redeem", nil, 0
+				if len(tw.X) < 7 {
+					tw.X = make([]int64, 7)
+				}
+				for len(tw.V) < 3 {
+					tw.V = append(tw.V, Amt{})
+				}
+				tw.X[0], tw.X[5], tw.X[6] = 999999, 0, 0
+				tw.NM, tw.SM, tw.MS, tw.ZGP, tw.CH = 0, 0, nil, false, 0
+				bo.Ops = append(bo.Ops, tw)
+			}
 			if op.K == "fillorder" && r.Intn(4) == 0 {
 				// the owner cancels the very order that was just (partially) filled, in the same block
 				rm := GenOp(r, p, nAcct)
